@@ -39,6 +39,10 @@ Sharp == /\ Is("Sharp") /\ l' = l + 1 /\ UNCHANGED <<as, bs, x, cuts>>
          /\ Ev.status \in {"converged", "max_iters", "failed"}
          /\ (Ev.status = "converged" => Ev.gapOK)
          /\ (Ev.mustConverge => (Ev.status = "converged" /\ Ev.evals <= 20000))
+         \* the invariants of Bundle.tla / BundleSize.tla observed inside the solver run (hook after every update of the model): every cut
+         \* is a lower bound of the objective at the minimiser and at the probe points (CutsAreLowerBounds), linearisation errors
+         \* are non-negative (ErrorsNonNegative), the bundle stays below its capacity (SizeBelowCapacity)
+         /\ Ev.cutsOK /\ Ev.errsOK /\ Ev.sizeOK
 Next == BInit \/ BStep \/ Sharp
 Spec == Init /\ [][Next]_vars
 Accepted == LET d == TLCGet("stats").diameter IN
